@@ -911,7 +911,7 @@ def main():
     a = args()
     run = Run(PID, a.tier)
     thorough = a.tier == "thorough"
-    cfgs = ["prod-san", "prod-verify", "cfg-int64-noasm-w8-c22", "cfg-i128struct-noasm-w2-c2"]
+    cfgs = ["prod-san", "cfg-int64-noasm-w8-c22", "prod-verify", "cfg-i128struct-noasm-w2-c2"]
     if thorough:
         cfgs += ["cfg-int64-san-w15", "cfg-i128-noasm-w8-c2", "cfg-i128struct-asm-w15", "cfg-int64-noasm-w2-c86-clang", "cfg-i128-noasm-w5-c22-clang", "prod-fast"]
     sgs = ["sg13-verify"] + (["sg13", "sg7-verify", "sg199"] if thorough else [])
